@@ -737,6 +737,11 @@ func (db *DB) CheckpointNoLock(ctx context.Context) (err error) {
 	if len(offsets) > 0 {
 		buf := make([]byte, db.pageSize)
 		for pgno, offset := range offsets {
+			// Like SQLite, skip frames for pages beyond the size of the database.
+			if pgno > commit {
+				continue
+			}
+
 			if _, err := walFile.Seek(offset+WALFrameHeaderSize, io.SeekStart); err != nil {
 				return fmt.Errorf("seek wal: %w", err)
 			} else if _, err := io.ReadFull(walFile, buf); err != nil {
